@@ -643,12 +643,15 @@ func genCases(seed uint64) []tcase {
 	var cs []tcase
 	rec := func() bool { return prop == "C26" || r.Chance(3, 4) }
 	// (a) all orders of small trees above a trunk delivered in order
-	nSmall := gen.Scale(8, 40)
+	nSmall := gen.Scale(8, 60)
 	for i := 0; i < nSmall; i++ {
 		trunk := 10 + r.Intn(4) // 10..13: forks straddle the margin 12
 		k := 3 + r.Intn(2)      // 3..4 upper blocks
 		if gen.Thorough() && r.Chance(1, 4) {
 			k = 5
+		}
+		if gen.Thorough() && i < 3 {
+			k = 6 // 720 orders each
 		}
 		bs := genChecked(r, trunk, k, 4)
 		rc := rec()
